@@ -265,43 +265,61 @@ use std::num::*;
 use urandom::Rng;
 
 fn prim<G: Rng + ?Sized>(r: &mut urandom::Random<G>, ty: &str) -> R<String> {
-	// `next::<T>()` or, on request (`path=stdsample` / `path=stdtrait`), the same draw through `sample(&StandardUniform)` / the trait method
+	Ok(prim_n(r, ty, 1)?.pop().unwrap())
+}
+
+fn is_prim(ty: &str) -> bool {
+	matches!(ty, "bool" | "i8" | "u8" | "i16" | "u16" | "i32" | "u32" | "i64" | "u64" | "i128" | "u128" | "isize" | "usize" | "f32" | "f64" | "char" | "nz8" | "nz16" | "nz32" | "nz64" | "nz128" | "nzsize")
+}
+
+fn prim_n<G: Rng + ?Sized>(r: &mut urandom::Random<G>, ty: &str, count: usize) -> R<Vec<String>> {
+	// `next::<T>()` or, on request (`path=stdsample` / `path=stdtrait` / `path=stdfill`), the same draws through
+	// `sample(&StandardUniform)` / the trait method / ONE `Random::fill` call over a buffer of `count` elements
 	let path = PATH.with(|p| p.borrow().clone());
 	macro_rules! nx {
-		($t:ty) => {
-			match path.as_str() {
-				"stdsample" => r.sample::<$t, _>(&StandardUniform),
-				"stdtrait" => <StandardUniform as Distribution<$t>>::sample(&StandardUniform, r),
-				_ => r.next::<$t>(),
-			}
-		};
+		($t:ty, $f:expr) => {{
+			let v: Vec<$t> = match path.as_str() {
+				"stdsample" => (0..count).map(|_| r.sample::<$t, _>(&StandardUniform)).collect(),
+				"stdtrait" => (0..count).map(|_| <StandardUniform as Distribution<$t>>::sample(&StandardUniform, r)).collect(),
+				"stdfill" => {
+					// the initial content comes from an unrelated generator (some element types have no Default)
+					let init: $t = urandom::seeded(1).next::<$t>();
+					let mut b: Vec<$t> = vec![init; count];
+					r.fill(&mut b[..]);
+					b
+				}
+				_ => (0..count).map(|_| r.next::<$t>()).collect(),
+			};
+			let f = $f;
+			v.into_iter().map(|x: $t| -> String { f(x) }).collect::<Vec<String>>()
+		}};
 	}
 	Ok(match ty {
-		"bool" => (nx!(bool) as u8).to_string(),
-		"coin" => (r.coin_flip() as u8).to_string(),
-		"i8" => nx!(i8).to_string(),
-		"u8" => nx!(u8).to_string(),
-		"i16" => nx!(i16).to_string(),
-		"u16" => nx!(u16).to_string(),
-		"i32" => nx!(i32).to_string(),
-		"u32" => nx!(u32).to_string(),
-		"i64" => nx!(i64).to_string(),
-		"u64" => nx!(u64).to_string(),
-		"i128" => nx!(i128).to_string(),
-		"u128" => nx!(u128).to_string(),
-		"isize" => nx!(isize).to_string(),
-		"usize" => nx!(usize).to_string(),
-		"wi16" => r.sample::<Wrapping<i16>, _>(&Wrapping(0i16)).0.to_string(),
-		"wu64" => r.sample::<Wrapping<u64>, _>(&Wrapping(0u64)).0.to_string(),
-		"f32" => (nx!(f32).to_bits()).to_string(),
-		"f64" => (nx!(f64).to_bits()).to_string(),
-		"char" => (nx!(char) as u32).to_string(),
-		"nz8" => nx!(NonZeroU8).get().to_string(),
-		"nz16" => nx!(NonZeroU16).get().to_string(),
-		"nz32" => nx!(NonZeroU32).get().to_string(),
-		"nz64" => nx!(NonZeroU64).get().to_string(),
-		"nz128" => nx!(NonZeroU128).get().to_string(),
-		"nzsize" => nx!(NonZeroUsize).get().to_string(),
+		"bool" => nx!(bool, |x| (x as u8).to_string()),
+		"coin" => (0..count).map(|_| (r.coin_flip() as u8).to_string()).collect(),
+		"i8" => nx!(i8, |x: i8| x.to_string()),
+		"u8" => nx!(u8, |x: u8| x.to_string()),
+		"i16" => nx!(i16, |x: i16| x.to_string()),
+		"u16" => nx!(u16, |x: u16| x.to_string()),
+		"i32" => nx!(i32, |x: i32| x.to_string()),
+		"u32" => nx!(u32, |x: u32| x.to_string()),
+		"i64" => nx!(i64, |x: i64| x.to_string()),
+		"u64" => nx!(u64, |x: u64| x.to_string()),
+		"i128" => nx!(i128, |x: i128| x.to_string()),
+		"u128" => nx!(u128, |x: u128| x.to_string()),
+		"isize" => nx!(isize, |x: isize| x.to_string()),
+		"usize" => nx!(usize, |x: usize| x.to_string()),
+		"wi16" => (0..count).map(|_| r.sample::<Wrapping<i16>, _>(&Wrapping(0i16)).0.to_string()).collect(),
+		"wu64" => (0..count).map(|_| r.sample::<Wrapping<u64>, _>(&Wrapping(0u64)).0.to_string()).collect(),
+		"f32" => nx!(f32, |x: f32| x.to_bits().to_string()),
+		"f64" => nx!(f64, |x: f64| x.to_bits().to_string()),
+		"char" => nx!(char, |x: char| (x as u32).to_string()),
+		"nz8" => nx!(NonZeroU8, |x: NonZeroU8| x.get().to_string()),
+		"nz16" => nx!(NonZeroU16, |x: NonZeroU16| x.get().to_string()),
+		"nz32" => nx!(NonZeroU32, |x: NonZeroU32| x.get().to_string()),
+		"nz64" => nx!(NonZeroU64, |x: NonZeroU64| x.get().to_string()),
+		"nz128" => nx!(NonZeroU128, |x: NonZeroU128| x.get().to_string()),
+		"nzsize" => nx!(NonZeroUsize, |x: NonZeroUsize| x.get().to_string()),
 		_ => return Err(Bad),
 	})
 }
@@ -358,8 +376,18 @@ pub fn std(req: &Req) -> R<String> {
 	let n = req.usize("n")?;
 	let words = req.list_u64("words")?;
 	let mut bad = false;
+	let whole = is_prim(ty) && PATH.with(|p| p.borrow().as_str() == "stdfill");
 	let r = with_mock(&words, |r| {
 		let mut out = Vec::new();
+		if whole {
+			match prim_n(r, ty, n) {
+				Ok(v) => return v,
+				Err(_) => {
+					bad = true;
+					return out;
+				}
+			}
+		}
 		for _ in 0..n {
 			match std_value(r, ty) {
 				Ok(s) => out.push(s),
